@@ -72,12 +72,28 @@ class C06(Prop):
         yield "protocol-exhaustive-scripts<=%d" % depth, lines
         n = 6000 if tier == "thorough" else 1500
         yield "protocol-random", ["drv %s %s" % (random_script(rng, rng.randrange(0, 30)), gen.hexs(gen.grammar_stream(rng))) for _ in range(n)]
+        lines = []
+        for _ in range(n):
+            data = gen.grammar_stream(rng, pieces=rng.choice([2, 3, 5]))
+            bufs = gen.apply_cuts(data, gen.random_cuts(rng, len(data))) if data else [[]]
+            if rng.randrange(3) == 0:
+                bufs.insert(rng.randrange(len(bufs) + 1), [])
+            lines.append("drvv %s %s" % (random_script(rng, rng.randrange(0, 12)), "/".join(gen.hexs(b) for b in bufs)))
+        for inp in SHORT_INPUTS:
+            for d in range(0, 3):
+                for sc in itertools.product(ENTRIES, repeat=d):
+                    for cut in range(1, len(inp)):
+                        lines.append("drvv %s %s/%s" % (",".join(sc) if sc else "-", gen.hexs(inp[:cut]), gen.hexs(inp[cut:])))
+        yield "protocol-vectored", lines
         yield "ops-scripted", ["strm strip boxed %s %s" % (random_script(rng), random_ops(rng)) for _ in range(n)]
 
     def observe(self, ctx, name, lines, results):
         if not name.startswith("protocol"):
             return []
-        inputs = sorted(set(l.split(" ")[2] for l in lines))
+        def whole(l):
+            f = l.split(" ")[2]
+            return "".join(x for x in f.split("/") if x != "-") or "-"
+        inputs = sorted(set(whole(l) for l in lines))
         spec = dict(zip(inputs, core.run_parallel([ctx["driver"], "spec"], ["sbcat " + h for h in inputs], "C06s")))
         out = []
         for label, _ in ctx["impls"]:
@@ -85,7 +101,7 @@ class C06(Prop):
                 if " | " not in r:
                     continue
                 outcome, received = r.split(" | ")
-                want = spec[l.split(" ")[2]]
+                want = spec[whole(l)]
                 received = "" if received == "-" else received
                 want = "" if want == "-" else want
                 ok = want.startswith(received) and (outcome != "ok" or received == want) and outcome != "livelock"
@@ -96,7 +112,7 @@ class C06(Prop):
 
     def nontrivial(self, line, impl):
         parts = line.split(" ")
-        script = parts[1] if parts[0] == "drv" else parts[3]
+        script = parts[1] if parts[0] in ("drv", "drvv", "drvn") else parts[3]
         return any(t.startswith("e") or t in ("a0", "a1", "a2", "a3", "a5", "a17") for t in script.split(","))
 
     def shrink_fields(self, line):
